@@ -1,5 +1,5 @@
 /- C36 — property theorems (proved ones) and the goals left to the exhaustive tie (`*_goal : Prop`). -/
-import TornadoModel.C36.Lemmas
+import TornadoModel.C36.LemmasTimeout
 namespace TornadoModel.C36
 
 /-! ### chain_future -/
@@ -98,20 +98,36 @@ def multi_not_early_goal : Prop :=
 theorem timeout_res_stable (s : Timeout.S) (ops : List Timeout.Op) (x : Outcome) (h : s.res = some x) :
     (Timeout.run s ops).res = some x := Timeout.res_stable_run ops s x h
 
-def with_timeout_before_goal : Prop :=
-  ∀ (pa : FState) (ops1 ops2 : List Timeout.Op) (o : Outcome), Timeout.Op.fire ∉ ops1 →
-    (Timeout.run (Timeout.init pa) ops1).a = some o →
-    (Timeout.run (Timeout.init pa) (ops1 ++ .fire :: ops2)).res = Spec.timeout (some (some o)) (some o)
+/-- the input finished before the loop iteration in which the deadline is due begins (`fire` = that iteration;
+    no earlier `fire` in `ops1`): whatever happens afterwards the result is the input's outcome — result,
+    exception or cancellation — for every initial state and every schedule -/
+theorem with_timeout_before (pa : FState) (ops1 ops2 : List Timeout.Op) (o : Outcome)
+    (hnf : Timeout.Op.fire ∉ ops1) (ha : (Timeout.run (Timeout.init pa) ops1).a = some o) :
+    (Timeout.run (Timeout.init pa) (ops1 ++ .fire :: ops2)).res = Spec.timeout (some (some o)) (some o) :=
+  Timeout.before_aux pa ops1 ops2 o hnf ha
 
-def with_timeout_after_goal : Prop :=
-  ∀ (pa : FState) (ops1 ops2 : List Timeout.Op), Timeout.Op.fire ∉ ops1 →
-    (Timeout.run (Timeout.init pa) ops1).a = none →
-    (Timeout.run (Timeout.init pa) (ops1 ++ .fire :: ops2)).res = some (.exc timeoutErr)
+example : Timeout.Op.fire ∉ [Timeout.Op.soonA .cancelled, .tick] ∧
+    (Timeout.run (Timeout.init none) [.soonA .cancelled, .tick]).a = some .cancelled := by decide
 
-def with_timeout_no_deadline_goal : Prop :=
-  ∀ (pa : FState) (ops : List Timeout.Op), Timeout.Op.fire ∉ ops →
-    let s := Timeout.run (Timeout.init pa) ops
-    s.ready = [] → s.res = Spec.timeout none s.a
+/-- the input has not finished when that iteration begins: the result is TimeoutError, for every schedule — even
+    if a `call_soon`ed callback settles the input inside that very iteration, and whatever the input does later -/
+theorem with_timeout_after (pa : FState) (ops1 ops2 : List Timeout.Op)
+    (hnf : Timeout.Op.fire ∉ ops1) (ha : (Timeout.run (Timeout.init pa) ops1).a = none) :
+    (Timeout.run (Timeout.init pa) (ops1 ++ .fire :: ops2)).res = Spec.timeout (some none) none :=
+  Timeout.after_aux pa ops1 ops2 hnf ha
+
+example : Timeout.Op.fire ∉ [Timeout.Op.soonA (.result 1)] ∧
+    (Timeout.run (Timeout.init none) [.soonA (.result 1)]).a = none := by decide
+
+/-- as long as the deadline has not arrived: once the loop is idle the result is the input's state
+    (settled with the input's outcome when the input is done — never left pending — and pending otherwise) -/
+theorem with_timeout_no_deadline (pa : FState) (ops : List Timeout.Op) (hnf : Timeout.Op.fire ∉ ops)
+    (hr : (Timeout.run (Timeout.init pa) ops).ready = []) :
+    (Timeout.run (Timeout.init pa) ops).res = Spec.timeout none (Timeout.run (Timeout.init pa) ops).a :=
+  Timeout.no_deadline_aux pa ops hnf hr
+
+example : Timeout.Op.fire ∉ [Timeout.Op.setA (.exc 3), .tick] ∧
+    (Timeout.run (Timeout.init none) [.setA (.exc 3), .tick]).ready = [] := by decide
 
 /-! ### WaitIterator -/
 
